@@ -1803,7 +1803,18 @@ _ET = ERROR_TYPES
 _CLASSES = "pytype/abstract/_classes.py"
 _MATCH_ARGS = "    self.match_args = self._convert_str_tuple(\"__match_args__\") or ()\n"
 PREPROCESS = "pytype/preprocess.py"
-_SPLIT_TODAY = "    lines = src.split(\"\\n\")\n"
+_SPLIT_TODAY = '    lines = re.split(r"(\\r\\n|\\r|\\n)", src)\n'
+
+
+def _pre_split(split_stmts, join='"\\n"'):
+  """augment_annotations re-spelled: `lines` built by split_stmts (one entry per
+  line, no separator entries), indexed by the ast line number, joined by join."""
+  return [(PREPROCESS, _SPLIT_TODAY, split_stmts),
+          (PREPROCESS, "      line = lines[2 * i].encode(\"utf-8\")\n",
+           "      line = lines[i].encode(\"utf-8\")\n"),
+          (PREPROCESS, "      lines[2 * i] = (line[:col]", "      lines[i] = (line[:col]"),
+          (PREPROCESS, "    src = \"\".join(lines)\n", f"    src = {join}.join(lines)\n")]
+
 
 # -- refactored shapes (behaviour-preserving, see benign/C15-r*) used by variants ----
 
@@ -2095,8 +2106,8 @@ VARIANTS = [
      "expect": "fire"},
     # the same change as seeded/C15-m2 as a text edit (the patch's context
     # lines went stale when preprocess.py was repaired for D45)
-    {"name": "seeded-C15-m2-as-text-edit", "rule": "R15.11", "file": PREPROCESS,
-     "expect": "fire", "old": _SPLIT_TODAY, "new": "    lines = src.splitlines()\n"},
+    {"name": "seeded-C15-m2-as-text-edit", "rule": "R15.11", "expect": "fire",
+     "edits": _pre_split("    lines = src.splitlines(keepends=True)\n", join='""')},
     {"name": "trace-source-lines-by-splitlines", "rule": "R15.11",
      "file": "pytype/tools/traces/source.py", "expect": "fire",
      "old": "    self._lines = src.split(\"\\n\")\n",
@@ -2105,22 +2116,21 @@ VARIANTS = [
      "file": ERRORS, "expect": "fire",
      "old": "          self._src[point_idx[0] : point_idx[-1]]\n          + \"\\n\"\n",
      "new": "          self._src.splitlines()[self._line - 1]\n          + \"\\n\"\n"},
-    {"name": "preprocess-keepends-splitlines", "rule": "R15.11", "expect": "fire",
-     "edits": [(PREPROCESS, _SPLIT_TODAY, "    lines = src.splitlines(keepends=True)\n"),
-               (PREPROCESS, "    src = \"\\n\".join(lines)\n", "    src = \"\".join(lines)\n")]},
-    {"name": "twin-normalise-then-split", "rule": "R15.11", "file": PREPROCESS,
-     "expect": "silent", "old": _SPLIT_TODAY,
-     "new": "    lines = src.replace(\"\\r\\n\", \"\\n\").replace(\"\\r\", \"\\n\").split(\"\\n\")\n"},
-    {"name": "twin-normalised-text-in-a-local", "rule": "R15.11", "file": PREPROCESS,
-     "expect": "silent", "old": _SPLIT_TODAY,
-     "new": "    text = re.sub(r\"\\r\\n?\", \"\\n\", src)\n    lines = text.split(\"\\n\")\n"},
+    {"name": "preprocess-plain-splitlines", "rule": "R15.11", "expect": "fire",
+     "edits": _pre_split("    lines = src.splitlines()\n")},
+    {"name": "preprocess-split-newline-only", "rule": "R15.11", "expect": "fire",
+     "edits": _pre_split("    lines = src.split(\"\\n\")\n")},
+    {"name": "twin-normalise-then-split", "rule": "R15.11", "expect": "silent",
+     "edits": _pre_split(
+         "    lines = src.replace(\"\\r\\n\", \"\\n\").replace(\"\\r\", \"\\n\").split(\"\\n\")\n")},
+    {"name": "twin-normalised-text-in-a-local", "rule": "R15.11", "expect": "silent",
+     "edits": _pre_split(
+         "    text = re.sub(r\"\\r\\n?\", \"\\n\", src)\n    lines = text.split(\"\\n\")\n")},
     {"name": "twin-splitlines-only-counted", "rule": "R15.11", "file": PREPROCESS,
      "expect": "silent", "old": _SPLIT_TODAY,
-     "new": "    log_rows = len(src.splitlines())\n"
-            "    lines = src.replace(\"\\r\\n\", \"\\n\").replace(\"\\r\", \"\\n\").split(\"\\n\")\n"},
-    {"name": "twin-cpython-line-ends-by-re-split", "rule": "R15.11", "file": PREPROCESS,
-     "expect": "silent", "old": _SPLIT_TODAY,
-     "new": "    lines = re.split(\"\\r\\n|\\r|\\n\", src)\n"},
+     "new": "    log_rows = len(src.splitlines())\n" + _SPLIT_TODAY},
+    {"name": "twin-cpython-line-ends-by-re-split", "rule": "R15.11", "expect": "silent",
+     "edits": _pre_split("    lines = re.split(\"\\r\\n|\\r|\\n\", src)\n")},
     # -- behaviour-preserving refactorings (whole patches) must stay silent
     {"name": "twin-benign-C15-r1-io-helpers", "rule": "R15.2",
      "patch": "benign/C15-r1/patch.diff", "expect": "silent"},
@@ -2173,4 +2183,56 @@ EXPLANATION += (
 )
 ASSUMPTIONS += [
     'R15.25: the field annotations in pytd/pytd.py describe what the nodes hold at run time (msgspec enforces them on decode only); a receiver narrowed by value tests on a *derived* variable (a regex on its name) is judged with its declared type.',
+]
+
+EXPLANATION += (
+    "  R15.26 (rules/c15_key_removal.py): in the stages that run before the "
+    "VM (pytype/directors/, blocks/, pyc/; nothing there catches KeyError) "
+    "every class is read for removers (methods doing `del self.<d>[<param>]` "
+    "or `self.<d>.pop(<param>)` without default, not protected inside the "
+    "method by `<param> in self.<d>` or a KeyError handler), testers (`return "
+    "<param> in self.<d>`) and mutators of the same mapping.  Every call "
+    "`<recv>.<remover>(<key>, ..)` must lie under a path condition containing "
+    "`<recv>.<tester>(<key>)` / `<key> in <recv>.<d>` (directly or through a "
+    "once-bound local holding a conjunction with it) AND that test must be "
+    "current: a must-dataflow over the caller (evaluating the test generates "
+    "the fact; calling a mutator on <recv>, storing through <recv>, or "
+    "re-binding a name of <recv>/<key> kills it; loop back-edges included) "
+    "has to deliver the fact at the call.  A remover destroys its own "
+    "precondition, so a test hoisted out of a loop or reused for a second "
+    "call lets the next call raise KeyError out of Director.__init__ (two "
+    "directives on the multi-line last statement of a function).  Today: "
+    "_BlockRanges.adjust_end / has_end, one call site.  Blind spots of "
+    "R15.26: removals whose key is not a parameter (parser."
+    "_add_structured_comment_group deletes keys it collected from the same "
+    "dict), plain `self.<d>[<param>]` reads, receivers reached under two "
+    "different spellings, and removers outside the three directories.  "
+    "R15.27 (rules/c15_exc_block_flag.py): producer and consumers of the "
+    "`push_exc_block` opcode flag agree.  Producer (re-derived: the one "
+    "`<op>.push_exc_block = True` of pyc/opcodes.py): the flag is set under "
+    "`(1 << <op>.argval) & mask`, and the mask function (today "
+    "_get_exception_bitmask) is evaluated on the sample range {4: 8}: it "
+    "marks the interior offsets too, so a flagged jump may land anywhere "
+    "inside an exception range (otherwise: analysis error, the obligation "
+    "has to be re-derived).  Consumers (every `if <op>.push_exc_block:` in "
+    "blocks/ and vm.py): the arm extends the block stack on every path (no "
+    "conditional push, no assert/raise in the arm; a push is `N += (x,)` / "
+    "`N = N + (x,)` for the name N whose top `N[-1]` the function reads, or "
+    "a call of push_block), and an opcode that is pushed is found by a "
+    "backward scan that starts at `<op>.target`, steps `v = v.prev`, and can "
+    "only end on isinstance(v, K) with SETUP_EXCEPT_311 in K (inline `while "
+    "not isinstance` / `while True: if isinstance: break`, or a module-local "
+    "helper of that shape).  Looking only at the op adjacent to the target "
+    "leaves the range's POP_BLOCK with an empty stack: `AssertionError: "
+    "POP_BLOCK without block.` escapes blocks.process_code.  Blind spots of "
+    "R15.27: that the scan terminates (a SETUP op precedes every flagged "
+    "target) rests on the producer inserting one at offset start-0.5, which "
+    "is not re-checked; pop_exc_block (jumps out of a range) is not covered.")
+ASSUMPTIONS += [
+    "R15.26: a mapping attribute is identified by its name on `self`; two "
+    "receivers are the same object iff they are spelled the same in the "
+    "caller; every mutator of the mapping is a method of the owning class",
+    "R15.27: rules/_minieval.py (with << and >> added locally) evaluates the "
+    "mask function exactly; consumers outside pytype/blocks/ and pytype/vm.py "
+    "(debug.py only prints the flag) do not take part in block bookkeeping",
 ]
